@@ -310,6 +310,8 @@ impl FsCommand {
 
     /// Executes the command and returns the number of bytes reclaimed
     pub fn execute(&self, should_lock: bool, log: &dyn Log) -> io::Result<FileLen> {
+        #[cfg(fclones_verif)]
+        crate::verif::jitter("run_script.cmd");
         match self {
             FsCommand::Remove { file } => {
                 let _ = Self::maybe_lock(&file.path, should_lock)?;
@@ -930,6 +932,8 @@ where
         .enumerate()
         .par_bridge()
         .map(move |(i, group)| {
+            #[cfg(fclones_verif)]
+            crate::verif::jitter("dedupe.group");
             let mut commands = Vec::new();
             if let Some(group) = fetch_files_metadata(group, log) {
                 let groups = if disallow_cross_device {
